@@ -298,10 +298,13 @@ def local_gp_fitting(
             cov_mu = 0.5 * (uu + ll)
             cov_sigma = 0.5 * (uu - ll)
 
-            gp_priors["covariance_log_lengthscale"] = (
-                "gaussian",
-                (cov_mu, cov_sigma),
-            )
+            # A single distinct distance (e.g. two training points) gives a
+            # zero-width prior and NaN length scales: keep the current prior
+            if cov_sigma > 0:
+                gp_priors["covariance_log_lengthscale"] = (
+                    "gaussian",
+                    (cov_mu, cov_sigma),
+                )
 
     # TODO Adjust prior length scales for periodic variables (mapped to unit circle)
 
